@@ -180,14 +180,18 @@ def match_dihedral_interaction_types(atoms, interaction_dict):
                 ('X', 'X', 2, 3),
                 (0, 'X', 'X', 3),
                 ('X', 1, 'X', 3),
-                ('X', 'X', 'X', 3)]
+                ('X', 'X', 'X', 3),
+                ('X', 1, 'X', 'X'),
+                ('X', 'X', 2, 'X'),
+                ('X', 'X', 'X', 'X')]
 
     for pattern in patterns:
-        key = _wildcard_dih(atoms, pattern)
-        if key in interaction_dict:
-            return key
-        elif key[::-1] in interaction_dict:
-            return key[::-1]
+        for atom_order in (atoms, atoms[::-1]):
+            key = _wildcard_dih(atom_order, pattern)
+            if key in interaction_dict:
+                return key
+            elif key[::-1] in interaction_dict:
+                return key[::-1]
 
     return None
 
